@@ -266,6 +266,7 @@ def RM_(sym, name):
 
 def build():
     U = Unit('SEMA', props=P)
+    U.default_closures = True     # rule-based D3/D16 (vlib/closures.py) applies to every function of this unit
     U.tag_loops = True     # loop invariants state property-relevant facts about abstractions: a failing one is reported
     # ---- types (re-verified copy; the C20 lemmas stay in unit TYPES)
     U.raw('pub mod types {\nuse vstd::prelude::*;\n')
